@@ -236,6 +236,7 @@ impl Q for DoublePriorityQueue<It, Pr> {
 }
 
 static FAULTS: std::sync::atomic::AtomicBool = std::sync::atomic::AtomicBool::new(false);
+static WIDE: std::sync::atomic::AtomicBool = std::sync::atomic::AtomicBool::new(false);
 
 /// iter_mut consumed following `bits` (front / back): every element at most once, nothing after the first None, all of them if it ended
 fn walk<F: FnMut(bool, usize) -> Option<usize>>(n: usize, bits: u64, calls: usize, mut step: F) -> Result<(), String> {
@@ -275,7 +276,8 @@ fn observe<T: Q>(q: &T, m: &Model) -> Result<(), Fail> {
 fn step<T: Q>(q: &mut T, m: &mut Model, r: &mut Rng, log: &mut Vec<String>) -> Result<(), Fail> {
     let ids = 28u64;
     let id = r.below(ids) as u16;
-    let p = if r.below(4) == 0 { r.below(1000) as i32 - 500 } else { r.below(7) as i32 };
+    // half of the histories draw priorities from a small range (many ties), the other half from a wide one (few ties)
+    let p = if WIDE.load(std::sync::atomic::Ordering::Relaxed) { r.below(100_000) as i32 - 50_000 } else if r.below(4) == 0 { r.below(1000) as i32 - 500 } else { r.below(7) as i32 };
     let tag = r.below(1_000_000) as u32;
     let faults = FAULTS.load(std::sync::atomic::Ordering::Relaxed);
     let op = { let o = r.below(if faults { 32 } else { 24 }); if !faults && o == 23 { 24 } else { o } };
@@ -392,11 +394,29 @@ fn step<T: Q>(q: &mut T, m: &mut Model, r: &mut Rng, log: &mut Vec<String>) -> R
             if r.below(2) == 0 { let v: Vec<(It, i32)> = m.iter().map(|(k, v)| (It { id: *k, tag: v.0, own: Box::new(0) }, v.1)).collect(); log.push("rebuild through From<Vec>/FromIterator".into());
                 *q = if r.below(2) == 0 { T::from_vec(v) } else { T::from_it(v, 0, Some(usize::MAX)) }; } }
     }
-    observe(q, m).map_err(|f| Fail { props: if oplabel.is_empty() { f.props } else { format!("{},{}", f.props, oplabel) }, what: f.what })
+    let deep = r.below(3) == 0;
+    observe(q, m).and_then(|_| if deep { drain_check(q.clone(), m, r.below(2) == 0) } else { Ok(()) })
+        .map_err(|f| Fail { props: if oplabel.is_empty() { f.props } else { format!("{},{}", f.props, oplabel) }, what: f.what })
+}
+
+/// latent disorder made visible at once: a clone is emptied by pops, each of which must return an extreme of what is left
+fn drain_check<T: Q>(mut c: T, m: &Model, alternate: bool) -> Result<(), Fail> {
+    let lab = if T::kind() == "PriorityQueue" { "C01" } else { "C02" };
+    let mut left: Vec<i32> = m.values().map(|x| x.1).collect(); left.sort();
+    let mut k = 0usize;
+    while !left.is_empty() {
+        let low = alternate && T::kind() != "PriorityQueue" && k % 2 == 1; k += 1;
+        let want = if low { left.remove(0) } else { left.pop().unwrap() };
+        let got = if low { c.pop_lo() } else { c.pop_hi() };
+        ck!(got.as_ref().map(|x| x.1) == Some(want), lab, "draining a clone: pop no. {} ({}) returned {:?}, the {} of what is left is {}", k, if low { "min" } else { "max" }, got.map(|x| (x.0.id, x.1)), if low { "minimum" } else { "maximum" }, want);
+    }
+    ck!(c.pop_hi().is_none() && c.len() == 0, lab, "draining a clone: elements are left after {} pops", k);
+    Ok(())
 }
 
 fn run_seq<T: Q>(seed: u64, index: u64, len: usize, want: &str, trace: bool) -> Option<(String, Vec<String>)> {
     let mut r = Rng(seed.wrapping_mul(0x9e3779b97f4a7c15) ^ index.wrapping_mul(0xd1b54a32d192ed03) ^ 0x5bf0_3635);
+    WIDE.store(index % 4 >= 2, std::sync::atomic::Ordering::Relaxed);
     let mut q = T::new(); let mut m = Model::new(); let mut log = vec![format!("{}::new()", T::kind())];
     if trace { println!("  {:3}: {}", 0, log[0]); }
     if want == "C05" && index < 2 {
